@@ -27,17 +27,35 @@ def hostile(rng):
         '<b onclick="x">', '<!-- c --><i>', '"><svg onload=x>', '&lt;script&gt;', '<a href="javascript:x">y</a>',
         "{--header-ids} = 'true'", '.cls #id "color:red" [onclick="x"] +skip', '<<#a"b>>', '<joe@x.com|"><b>>',
         '^[a"b](c"d)', '<image:u|a"b>', 'http://x.com/"a', "{m} = '\"onx=\"y'", '<u {m}>', '[{m}](http://z/{m})',
-        '.{m}', '<div class="{m}">', '`<b>`', '\\<b>', '<B CLASS="x">', '</p><script>', '<br', '<p\n>', '&#60;script&#62;',
+        '."color:red\\" onmouseover=alert(1) x=\\"y"', '.cls "a:b\\"c"', ".\"a'b\" [c]", '<image:u\\"x|a\\"b>', '[c](http://a\\"b)',
+        '.#i\\"d', '.c"d', '.{m}', '<div class="{m}">', '`<b>`', '\\<b>', '<B CLASS="x">', '</p><script>', '<br', '<p\n>', '&#60;script&#62;',
         '<image:{m}>', '<{m}|cap>', '.#{m}', '<a\u0000b>', '<a href=x\u0001>',
     ])
     return frag
+
+
+BREAKERS = ['"', '\\"', "'", '>', '<', ' x=y', ' onclick=e()', '\\', '&quot;', '"x="', '\u0000', '`', '\\\\"']
+
+
+def breaker(rng):
+    return ''.join(rng.choice(BREAKERS + ['a', 'b:c']) for _ in range(rng.randint(1, 4)))
+
+
+def attribute_attack(rng):
+    """An attribute-bearing construct with a breaker string in each of its value positions."""
+    b = breaker(rng)
+    return rng.choice([
+        '."%s"\npara' % b, '.cls "a:%s"\n- item' % b, '.#id%s\npara' % b, '.c%s\npara' % b, '[cap](http://h/%s)' % b,
+        '^[cap](http://h/%s)' % b, '<http://h/%s|cap>' % b, '<http://h/%s>' % b, '<image:http://h/%s|alt>' % b, '<image:i|a%s>' % b,
+        '![a%s](u)' % b, '![a](u%s)' % b, '<a@b.c%s|cap>' % b, '<a%s@b.c>' % b, 'http://h/%s' % b, '<<#a%s>>' % b, '# Head %s' % b,
+        '.. c%s\ntext\n..' % b, '`` js%s\ncode\n``' % b, '"" q%s\nquote\n""' % b])
 
 
 def hostile_source(rng, repo):
     src = gen.any_source(rng, repo)
     lines = src.split('\n')
     for _ in range(rng.randint(1, 4)):
-        h = hostile(rng)
+        h = hostile(rng) if rng.random() < 0.6 else attribute_attack(rng)
         pos = rng.randrange(len(lines) + 1)
         if rng.random() < 0.5 and lines:
             i = min(pos, len(lines) - 1)
